@@ -1,9 +1,13 @@
 package props
 
 import (
+	"encoding/json"
 	"fmt"
 	"os"
+	"path/filepath"
 	"testing"
+
+	"verifharness/wsref"
 )
 
 func TestC01(t *testing.T) { RunProp(t, "C01", "roundtrip", genWireCase, checkC01) }
@@ -40,3 +44,67 @@ func TestC05(t *testing.T) { RunProp(t, "C05", "faults", genFaultCase, checkC05)
 func TestC06(t *testing.T) { RunProp(t, "C06", "limit", genLimitCase, checkC06) }
 
 func TestC08(t *testing.T) { RunProp(t, "C08", "control", genCtlCase, checkC08) }
+
+func TestC07(t *testing.T) { RunProp(t, "C07", "untrusted", genFuzzCase, checkC07) }
+
+// Native fuzz targets for C07 (thorough tier).  Every failing input is also
+// written as a JSON FuzzCase so that it replays through TestC07.
+func fuzzC07(f *testing.F, entry string, seeds [][]byte) {
+	for _, s := range seeds {
+		f.Add(s)
+	}
+	if dir := os.Getenv("VERIF_CORPUS"); dir != "" {
+		files, _ := filepath.Glob(filepath.Join(dir, "C07-"+entry, "*"))
+		for _, p := range files {
+			if b, err := os.ReadFile(p); err == nil {
+				f.Add(b)
+			}
+		}
+	}
+	f.Fuzz(func(t *testing.T, data []byte) {
+		if len(data) > 1<<16 {
+			return
+		}
+		c := fuzzCaseFromBytes(entry, data)
+		watchdogCtx.id, watchdogCtx.part, watchdogCtx.test = "C07", "fuzz-"+entry, "TestC07"
+		if err := safeCheck(checkC07, c, &Obs{}); err != nil {
+			js, _ := json.Marshal(c)
+			writeFail("C07", "fuzz-"+entry, "TestC07", js, err)
+			t.Fatal(err)
+		}
+	})
+}
+
+func frameSeeds() [][]byte {
+	var out [][]byte
+	for opt := byte(0); opt < 4; opt++ {
+		s := Stream{Msgs: []SMsg{{Op: 1, Data: Payload{Len: 5, Kind: "text"}, Frags: []int{2}, Ctl: []SCtl{{At: 1, Op: 9, Data: Payload{Len: 3, Kind: "counter"}}}, Compressed: opt&2 != 0, Segs: []wsref.Seg{{Kind: "fixed", Len: 5}}}}, Close: &SClose{Code: 1000, Reason: "bye"}}
+		m := BuildStream(s, opt&1 != 0, opt&2 != 0)
+		out = append(out, append([]byte{opt}, m.Wire...))
+	}
+	out = append(out, []byte{0, 0x82, 0x7f, 0x7f, 0xff, 0xff, 0xff, 0xff, 0xff, 0xff, 0xff}, []byte{0, 0x82, 0x7f, 0x80, 0, 0, 0, 0, 0, 0, 0}, []byte{1, 0x89, 0xfe, 0, 0x7e}, []byte{2, 0xc1, 0x01, 0x00})
+	return out
+}
+
+func replySeeds() [][]byte {
+	var out [][]byte
+	for _, s := range replyTemplates {
+		out = append(out, append([]byte{0}, s...), append([]byte{2}, s...))
+	}
+	return out
+}
+
+func headerSeeds() [][]byte {
+	var out [][]byte
+	for i := range fuzzHeaderNames {
+		for _, v := range headerValuePool {
+			out = append(out, append([]byte{byte(i << 4)}, v...))
+		}
+	}
+	return out
+}
+
+func FuzzC07Frames(f *testing.F)     { fuzzC07(f, "frames", frameSeeds()) }
+func FuzzC07DialReply(f *testing.F)  { fuzzC07(f, "dialreply", replySeeds()) }
+func FuzzC07ProxyReply(f *testing.F) { fuzzC07(f, "proxyreply", replySeeds()) }
+func FuzzC07Headers(f *testing.F)    { fuzzC07(f, "headers", headerSeeds()) }
